@@ -553,6 +553,24 @@ static void finish (int diverged) {
 /* ------------------------------------------------------------------ random exploration */
 static unsigned long long rng;
 static unsigned rnd (void) { rng ^= rng << 13; rng ^= rng >> 7; rng ^= rng << 17; return (unsigned) (rng >> 11); }
+static FILE *trace;      /* random mode: one JSON line per granted step (code -> spec validation against NoteTrace.tla) */
+static void log_step (int t) {
+	int k;
+	if (!trace || S.kind != K_NOTE) return;
+	fprintf (trace, "{\"t\":%d,\"k\":\"%s\",\"nm\":[", t + 1, rt_kind_name (rt_last (t)->kind));
+	for (k = 1; k <= S.nnotes; k++) fprintf (trace, "%s%d", k > 1 ? "," : "", (S.note[k] != NULL && !S.freed[k] && *(volatile uint32_t *) &S.note[k]->notified != 0) ? 1 : 0);
+	fprintf (trace, "],\"cv\":%u}\n", S.c ? *(volatile uint32_t *) &S.c->value : 0);
+}
+/* Note.tla's TickUseful, as far as the harness can see it: a sleeper whose deadline is ahead, or a live un-notified note whose own expiry is ahead */
+static int tick_useful (void) {
+	int k;
+	if (rt_timed_waiter_pending ()) return 1;
+	for (k = 1; k <= S.nnotes; k++) if (S.note[k] != NULL && !S.freed[k] && *(volatile uint32_t *) &S.note[k]->notified == 0) {
+		long e = tick_of (S.note[k]->expiry_time);
+		if (e > 0 && e < 9999 && e > (long) (rt_now () - RT_T0)) return 1;
+	}
+	return 0;
+}
 static int run_random (long runs, unsigned seed, const char *init, const char *violdir, const char *prop) {
 	long r, viols = 0, steps_total = 0, nontriv = 0;
 	for (r = 0; r < runs && viols < 40; r++) {     /* forty failing runs are enough (a livelock makes every run slow) */
@@ -569,7 +587,9 @@ static int run_random (long runs, unsigned seed, const char *init, const char *v
 			int cand[RT_MAXT], nc = 0, t;
 			for (i = 0; i < S.n; i++) if (rt_enabled (i)) cand[nc++] = i;
 			if ((nc == 0 || (rnd () % 16) == 0) && (rt_now () < RT_T0 + maxdl + 1 || once_timed_waiter ())) {
-				if (nc == 0 || (rnd () % 2)) { rt_tick (); fprintf (sf, "S 0 Tick *\n"); guard++; if (guard > 50000) break; continue; }
+				if (trace && !(rt_now () < RT_T0 + maxdl && tick_useful ())) { if (nc == 0) break; }      /* while recording, the clock moves only when the specification lets it */
+				else
+				if (nc == 0 || (rnd () % 2)) { rt_tick (); fprintf (sf, "S 0 Tick *\n"); if (trace) fprintf (trace, "{\"t\":0,\"k\":\"tick\",\"nm\":[],\"cv\":0}\n"); guard++; if (guard > 50000) break; continue; }
 			}
 			if (nc == 0) break;
 			t = cand[rnd () % (unsigned) nc];
@@ -577,16 +597,17 @@ static int run_random (long runs, unsigned seed, const char *init, const char *v
 			if (r % 3 == 1 && guard >= starve_from) {
 				int victim = (int) (r / 3) % S.n;
 				if (nc > 1 && t == victim) { int k; for (k = 0; k < nc; k++) if (cand[k] != victim) { t = cand[k]; break; } }
-				else if (nc == 1 && t == victim && once_timed_waiter () && guard < 600) { rt_tick (); fprintf (sf, "S 0 Tick *\n"); guard++; continue; }
+				else if (nc == 1 && t == victim && once_timed_waiter () && guard < 600 && !trace) { rt_tick (); fprintf (sf, "S 0 Tick *\n"); guard++; continue; }
 			}
 			/* spinning threads (delay) yield most of the time */
 			if (rt_pending (t)->kind == OP_DELAY && nc > 1 && (rnd () % 4)) t = cand[rnd () % (unsigned) nc];
-			rt_grant (t); note_step (t);
+			rt_grant (t); note_step (t); log_step (t);
 			fprintf (sf, "S %d * *\n", t + 1);
 			guard++;
 		}
 		steps_total += guard;
 		if (!rt_first_violation () && !all_done ()) finish (1);
+		if (trace) fprintf (trace, "{\"t\":0,\"k\":\"reset\",\"nm\":[],\"cv\":0}\n");
 		fclose (sf);
 		if (rt_first_violation ()) {
 			const struct rt_viol *v = rt_first_violation ();
@@ -639,6 +660,7 @@ int main (int argc, char **argv) {
 		if (!f) { perror (argv[2]); return 2; }
 		return rp_explore_from (f, &h, atol (argv[3]), (unsigned) atol (argv[4]), argc > 5 ? argv[5] : NULL, prop, NULL, 20000) ? 1 : 0;
 	}
+	if (!strcmp (argv[1], "random") && argc > 6) trace = fopen (argv[6], "w");
 	if (!strcmp (argv[1], "random") && argc >= 5) return run_random (atol (argv[2]), (unsigned) atol (argv[3]), argv[4], argc > 5 ? argv[5] : NULL, prop);
 	return 2;
 }
